@@ -111,6 +111,34 @@ def run(ck: Checker):
         if not positive:
             probs.append(f'L{n.lineno}: `{norm_text(n)[:60]}` is reached without a positive `isinstance(q, (queue.Queue, queue.SimpleQueue))`: a multiprocessing queue (in particular one wrapped in ResponsiveQueue because a stop event was given) gets thread-only helpers, and the object can no longer be sent to another process (cannot pickle \'_thread.lock\')')
     ck.ob('C17-7', init, thread_kind[0], not probs, probs[0] if probs else f'{len(thread_kind)} thread-kind helpers, each created under a positive isinstance test for the thread queue classes; every other queue gets multiprocessing helpers')
+    # ------------------------------------------------------------------ C17-8
+    ck.rule('C17-8', 'a supplier waiting for the next round stays responsive: every get on the spare-token queue in put_end carries a numeric timeout (never None / a value that can be None), and a get that is retried in a loop tests the stop event after every expiry and raises StopRequested (EXITS)', minimum=2)
+    pe = cls.method('put_end')
+    scp = Scope(pe)
+
+    def extra8(node, a):
+        return {'Empty'} if any(method_of(c)[1] == 'get' and dotted(method_of(c)[0]) == 'self._spare_lids' for c in calls_in(a)) else set()
+
+    cfg8 = build_cfg(pe, ck.repo, make_fallible(scp, iters=set(), calls=set(), extra=extra8))
+    ck.analysed_func(pe, cfg8)
+    gets8 = [(n, c) for n in cfg8.nodes if header_expr(n) is not None for c in calls_in(header_expr(n)) if method_of(c)[1] == 'get' and dotted(method_of(c)[0]) == 'self._spare_lids']
+    ck.need(gets8, f'{pe.key}: no get on the spare-token queue')
+    for n, c in gets8:
+        probs8 = []
+        tv = kwarg(c, 'timeout') or (c.args[1] if len(c.args) > 1 else None)
+        if tv is None:
+            probs8.append('the wait for a spare token has no timeout')
+        elif not (isinstance(tv, ast.Constant) and isinstance(tv.value, (int, float)) and not isinstance(tv.value, bool) and tv.value > 0):
+            if any(isinstance(x, ast.Constant) and x.value is None for x in ast.walk(tv)) or not isinstance(tv, ast.Constant):
+                probs8.append(f'the timeout `{norm_text(tv)}` can be None (or is not a positive number): the supplier then waits for the next round without bound and without ever looking at the stop event — after a stop request it blocks on for ever instead of raising StopRequested')
+        if n.loops:
+            stops8 = {k.id for k in cfg8.nodes if k.kind == 'test' and 'is_set' in norm_text(k.ast)}
+            for e in cfg8.succ[n.id]:
+                if e.kind == 'exc' and path_avoiding(cfg8, [e], {n.id}, avoid=stops8) is not None:
+                    probs8.append('after an expired wait the get is retried without testing the stop event')
+            if not any(isinstance(k.ast, ast.Raise) and k.ast.exc is not None and 'StopRequested' in norm_text(k.ast.exc) for k in cfg8.nodes):
+                probs8.append('a set stop event does not raise StopRequested')
+        ck.ob('C17-8', pe, c, not probs8, '; '.join(sorted(set(probs8))) if probs8 else f'`{norm_text(c)[:50]}`: bounded' + (', retried only after the stop event was tested' if n.loops else ''))
     ck.rule('C17-5', 'timeouts of put/get reach the underlying queue operation as given (0 = do not wait is legal): re-bound only under `is None`, never replaced through truthiness (GUARD)', minimum=3)
     from .common import check_timeout_passthrough
 
@@ -301,6 +329,25 @@ def run(ck: Checker):
                 probs.append('a set stop event does not raise StopRequested')
         if not stops:
             probs.append('the stop event is never tested')
+    # the remaining time is *recomputed* from the total and the clock in every pass: `rem = total - (clock() - t0)`.
+    # A running decrement by the time since t0 (`rem -= clock() - t0`, t0 never reset) subtracts the whole elapsed time
+    # again on every pass: the budget shrinks quadratically with the number of polls, and an untimed get/put that stays
+    # blocked long enough raises Empty / Full although nobody asked it to stop
+    rem_names = {x.id for x in ast.walk(tm) if isinstance(x, ast.Name)} if tm is not None else set()
+    loop_ids = set(wn.loops)
+    for n in cfg4.nodes:
+        if not (set(n.loops) & loop_ids):
+            continue
+        a_ = n.ast
+        if isinstance(a_, ast.AugAssign) and isinstance(a_.target, ast.Name) and a_.target.id in rem_names:
+            clockish = any(isinstance(c, ast.Call) and (dotted(c.func) or '').split('.')[-1] in ('perf_counter', 'monotonic', 'time') for c in ast.walk(a_.value))
+            starts = {x.id for x in ast.walk(a_.value) if isinstance(x, ast.Name)}
+            reset = any(isinstance(k.ast, ast.Assign) and any(isinstance(t_, ast.Name) and t_.id in starts for t_ in k.ast.targets) and (set(k.loops) & loop_ids) for k in cfg4.nodes)
+            if clockish and not reset:
+                probs.append(f'L{n.lineno}: `{norm_text(a_)}` takes the time since the start off the remaining time on every pass (the start `{sorted(starts - {"perf_counter", "time"})[0] if starts else "?"}` is never reset): the budget shrinks quadratically — a get/put without timeout that stays blocked for a few hundred polls raises Empty / Full with no stop requested')
+        if isinstance(a_, ast.Assign) and any(isinstance(t_, ast.Name) and t_.id in rem_names for t_ in a_.targets):
+            if any(isinstance(x, ast.Name) and x.id in rem_names and isinstance(x.ctx, ast.Load) for x in ast.walk(a_.value)):
+                probs.append(f'L{n.lineno}: `{norm_text(a_)[:60]}` computes the remaining time from its own previous value and the clock: elapsed time is counted more than once')
     # every normal exit returns the result of the delegated call: the loop cannot be left any other way
     for e in cfg4.pred[cfg4.exit_return]:
         src = cfg4.nodes[e.src]
